@@ -85,14 +85,14 @@ theorem postAllF_sem {ord : Order} (ho : OrderOK ord) : ∀ (as : List FAtom) (s
         intro γ ⟨a1, a2⟩
         exact ih γ ⟨(sem1 γ).2 ⟨a1, a2 a (List.mem_cons_self ..)⟩, fun b hb => a2 b (List.mem_cons_of_mem _ hb)⟩
       | fuel => trivial
-      | panic s => trivial
+      | panic s => rw [hq] at ih; exact ih
     | fail =>
       rw [hp] at h1
       simp only [Res.bind]
       intro γ ⟨a1, a2⟩
       exact h1 γ ⟨a1, a2 a (List.mem_cons_self ..)⟩
     | fuel => trivial
-    | panic s => trivial
+    | panic s => rw [hp] at h1; exact h1
 
 /-- EXACTNESS from the empty state: the state after the whole conjunction describes exactly its solutions -/
 theorem fd_exact_ok {ord : Order} (ho : OrderOK ord) (n : Nat) (as : List FAtom) (hok : ∀ a ∈ as, a.OK)
@@ -126,6 +126,15 @@ theorem fd_order_free {ord ord' : Order} (ho : OrderOK ord) (ho' : OrderOK ord')
     exact ⟨fun h a ha => h a (hp.mem_iff.2 ha), fun h a ha => h a (hp.mem_iff.1 ha)⟩
   · intro st1 h1 h2 γ hs
     exact fd_exact_fail ho' n as' hok' h2 ⟨γ, fun a ha => (fd_exact_ok ho n as hok st1 h1 γ).1 hs a (hp.mem_iff.2 ha)⟩
+
+/-- NO PANIC: posting any list of atoms of the fragment never reaches a panic site of the state machine
+    (`fd-minmax`: min/max of an empty domain — unreachable because stored domains stay well-formed) -/
+theorem fd_no_panic {ord : Order} (ho : OrderOK ord) (n : Nat) (as : List FAtom) (hok : ∀ a ∈ as, a.OK) (s : String) :
+    postAllF ord (State.empty n) as ≠ .panic s := by
+  intro h
+  have r := postAllF_sem ho as (State.empty n) (wfs_empty n) (inv_empty n) hok
+  rw [h] at r
+  exact r
 
 /-- a state with nothing pending describes its own substitution: the answer itself satisfies every atom -/
 theorem fd_closed {ord : Order} (ho : OrderOK ord) (n : Nat) (as : List FAtom) (hok : ∀ a ∈ as, a.OK)
